@@ -4,12 +4,29 @@ import nodecheck
 PROFILE = dict(outbound=0.6, peers=3)
 W = nodecheck.weights(app_request=8, answer_request=7, odd_answer=3, tick=5, cea=10, conndone=8, cer=8, close=1.5, dpr=1)
 N_QUICK, N_THOROUGH, LENGTH = 60, 1500, 24
-THEMES = (("ready", 2, 60, 2, 3000),)
-FILES = ["Props/C10.v"]
+THEMES = (("ready", 2, 60, 2, 3000), ("two_peers", 400, 0, None, 0), ("realms", 120, 0, None, 0))
+# the hop-by-hop identifiers of outbound requests come from the per-connection SequenceGenerator: the bridge theorem
+# C10_hbh_fresh is about the model's generator, Link/LinkIds.v ties that generator's step program to node/_helpers.py
+FILES = ["Link/LinkIds.v", "Props/C10.v"]
+
+
+def _concurrent_senders(run):
+    """failing-input search when the generator's tie broke: requests sent concurrently from several threads draw their
+    hop-by-hop identifiers under every schedule with <= 3 pre-emptions (the C16 exploration)"""
+    from props import c16
+    extra = []
+    for kind, start, nt, nd, pre, cap in [("seq", 10, 2, 2, 3, 20000), ("seq", 0xfffffffe, 3, 1, 3, 20000), ("seq", 77, 4, 1, 2, 20000)]:
+        before = len(run.violations)
+        c16._explore(run, kind, start, nt, nd, pre, cap, [], extra)
+        for v in run.violations[before:]:
+            v["what"] = ("requests sent concurrently on one connection: " + (v.get("what") or "two senders obtained the same / a zero "
+                         "hop-by-hop identifier"))
+        if run.violations:
+            break
 
 
 def check(run):
-    return nodecheck.run(run, "C10", FILES, PROFILE, W, N_QUICK, N_THOROUGH, LENGTH, themes=THEMES)
+    return nodecheck.run(run, "C10", FILES, PROFILE, W, N_QUICK, N_THOROUGH, LENGTH, themes=THEMES, on_broken=_concurrent_senders)
 
 
 replay = nodecheck.replay_generic
